@@ -73,6 +73,12 @@ declare -A CHECKS=(
  [C16-create-overwrites-warming-up-asset]="C16"
  [C18-import-overwrites-redelegation-queue-slot]="C18"
  [C12-reward-weight-uses-validator-shares]="C12 C13"
+ [C04-redelegate-destination-validator-shares-inverted-price]="C04 C03"
+ [C17-update-accepts-negative-interval-for-growth-rate]="C17 C16 C14"
+ [C12-redelegate-new-position-claims-validator-after-create]="C12 C13"
+ [C11-supplyof-skips-net-when-weights-zero]="C11"
+ [C05-sub-unit-reward-rounded-up]="C05 C12"
+ [C03-slash-redelegation-reduces-total-by-tokens]="C03"
  [C13-redelegate-settles-validator-not-existing-position]="C13"
  [C18-import-restarts-decay-clock]="C18"
  [C15-complete-skips-second-source-of-fan-in]="C15"
